@@ -103,6 +103,10 @@ impl Server {
         let ep = Ep { id: src, live: self.live.clone() };
         self.live.fetch_add(1, Ordering::SeqCst);
         let mut rq: CoapRequest<Ep> = CoapRequest::from_packet(p.clone(), ep);
+        // endpoint number 77777777 stands for a request assembled by hand with NO source (CoapRequest::new() leaves it None):
+        // one more peer as far as the handler is concerned.  (Its cache entry holds no endpoint clone, so such cases
+        // run in mode 2, where the entry count is not observed.)
+        if src == 77_777_777 { rq.source = None; }
         let r1 = self.h.intercept_request(&mut rq);
         self.npending += 1;
         Pending { rq, r1 }
@@ -150,8 +154,9 @@ impl Server {
 }
 
 fn run_steps(m: u64, mode: u64, steps: &[RStep], only: Option<u64>) -> Vec<u64> {
-    // mode 0 / 3: one hour; mode 1: 40 ms with 200 ms sleeps; mode 2: 300 ms with 100 ms naps (only the last exchange is observed)
-    let ttl = match mode { 0 | 3 => Duration::from_secs(3600), 1 => Duration::from_millis(40), _ => Duration::from_millis(300) };
+    // mode 0 / 3: one hour; mode 1: 40 ms with 200 ms sleeps; mode 2: 300 ms with 100 ms naps (only the last exchange is observed);
+    // mode 4: one second with 100 ms naps, every exchange observed (idle periods are kept 200 ms or more away from the second)
+    let ttl = match mode { 0 | 3 => Duration::from_secs(3600), 1 => Duration::from_millis(40), 4 => Duration::from_millis(1000), _ => Duration::from_millis(300) };
     let last_ex = steps.iter().rposition(|s| matches!(s, RStep::Ex(..)));
     let mut srv = Server::new(m, ttl);
     srv.always = mode == 3;
@@ -161,8 +166,9 @@ fn run_steps(m: u64, mode: u64, steps: &[RStep], only: Option<u64>) -> Vec<u64> 
     let wanted = |tid: u64| only.map_or(true, |t| t == tid);
     for (idx, st) in steps.iter().enumerate() {
         match st {
-            RStep::Sleep => { if only.is_none() { std::thread::sleep(Duration::from_millis(200)); after_sleep = true; } }
-            RStep::Nap => { if only.is_none() { std::thread::sleep(Duration::from_millis(100)); } }
+            // (time passes in a transfer's solo run as it does in the interleaved one)
+            RStep::Sleep => { std::thread::sleep(Duration::from_millis(200)); after_sleep = true; }
+            RStep::Nap => { std::thread::sleep(Duration::from_millis(100)); }
             RStep::Begin(tid, p, src, rp) => {
                 if !wanted(*tid) { continue; }
                 match catch_unwind(AssertUnwindSafe(|| srv.begin(p, *src))) {
@@ -187,7 +193,7 @@ fn run_steps(m: u64, mode: u64, steps: &[RStep], only: Option<u64>) -> Vec<u64> 
                 match r {
                     Ok((mut o, _)) => {
                         if mode == 2 { if Some(idx) == last_ex { if let Some(x) = o.last_mut() { *x = 0; } out.push(o.len() as u64); out.extend(o); } }
-                        else if mode == 0 || mode == 3 || after_sleep { out.push(o.len() as u64); out.extend(o); }
+                        else if mode == 0 || mode == 3 || mode == 4 || after_sleep { out.push(o.len() as u64); out.extend(o); }
                     }
                     Err(_) => { out.push(2); out.push(9); out.push(0); return out; }
                 }
@@ -320,6 +326,19 @@ pub fn gen80(tier: &str, r: &mut Rng, emit: &mut dyn FnMut(Vec<u64>)) {
     }
     for blen in [5000usize, 20000] { for pref in [None, Some(6u8)] { one(r, blen, 1152, pref, None, 8, emit); } }
     one(r, 5000, 1152, Some(3), None, 8, emit);
+    // 300 / 1100 requests from other endpoints between two block requests of one transfer: the follow-ups are still
+    // served from the cache (nothing bounds the number of keys the handler keeps for an hour)
+    for &n in (if thorough { &[40u64, 255, 256, 257, 300, 1100][..] } else { &[300u64, 1100][..] }) { for at in [1usize, 2] {
+        let rp = Reply { code: 0x45, opts: vec![], body: r.bytes(300) };
+        let mut first = ReqSpec::get(&["res", "b"]); first.token = vec![3]; first.mid = 500; first.b2 = Some(bv(0, false, 2));
+        let t = play_block2(1152, &first, 7, &rp, None, 1);
+        if t.len() <= at { continue; }
+        let mut steps: Vec<Step> = t[..at].to_vec();
+        for i in 0..n { let mut o = ReqSpec::get(&["other"]); o.mid = i as u16; o.token = vec![(i % 251) as u8];
+            steps.push(Step::Ex(50 + i, o.desc(), 100 + i, Reply { code: 0x45, opts: vec![], body: vec![1, 2, 3] })); }
+        steps.extend(t[at..].iter().cloned());
+        emit(write_case(1152, 0, &steps));
+    } }
     // two transfers in a row on the same resource and endpoint (the second without / with early negotiation):
     // nothing of the first may leak into the second
     for _ in 0..(if thorough { 1000 } else { 200 }) {
@@ -437,6 +456,38 @@ pub fn gen90(tier: &str, r: &mut Rng, emit: &mut dyn FnMut(Vec<u64>)) {
         steps.extend(upload_steps(1, &n, 7, &body, szx, &|_| 1, None, &rp));
         emit(write_case(1152, 0, &steps));
     }
+    // uploads whose answer is too large for one message (it leaves block-wise), whose requests also name a Block2 size,
+    // and uploads that start while a response of an earlier exchange on the same resource is still cached
+    for _ in 0..(if thorough { 3000 } else { 400 }) {
+        let szx = r.below(3) as u8; let sz = 16usize << szx;
+        let mut b = base.clone(); b.code = r.pick(&[2u64, 3, 5, 6, 7]); b.token = r.bytes_below(9);
+        let big = Reply { code: r.pick(&[0x44u64, 0x41, 0x45]), opts: rand_reply_opts(r), body: r.bytes_pick(&[0usize, 40, 1300, 3000]) };
+        let mut steps = Vec::new();
+        let stale = r.chance(1, 2);
+        if stale {
+            // an earlier exchange on the same key whose large answer was never fetched to the end
+            let mut s0 = b.clone(); s0.mid = 77; s0.payload = r.bytes_pick(&[0usize, 3]);
+            if r.chance(1, 2) { s0.b2 = Some(bv(0, false, r.below(3) as u8)); }
+            steps.push(Step::Ex(9, s0.desc(), 7, Reply { code: 0x45, opts: vec![], body: r.bytes(3000) }));
+        }
+        let nb = 1 + r.below(3) as usize;
+        let tail = 1 + r.below(sz as u64) as usize;
+        let body = r.bytes(sz * (nb - 1) + tail);
+        let mut up = upload_steps(1, &b, 7, &body, szx, &|_| 1, None, &big);
+        // 0: none, 1: on the final request, 2: on every request, 3: on the non-final ones.  (A request that carries a
+        // Block2 option while an unfinished response is cached for its key CONTINUES that transfer -- the limitation C08's
+        // domain states; a final upload block is such a request, so after the stale exchange it carries none.)
+        let hint = if stale { r.pick(&[0u64, 3]) } else { r.below(4) };
+        let n = up.len();
+        for (i, st) in up.iter_mut().enumerate() {
+            let fin = i + 1 == n;
+            if hint == 2 || (hint == 1 && fin) || (hint == 3 && !fin) {
+                if let Step::Ex(_, d, _, _) = st { d.entries.push((23, vec![bv(0, false, r.below(5) as u8)])); d.entries.sort_by_key(|e| e.0); }
+            }
+        }
+        steps.extend(up);
+        emit(write_case(1152, if r.chance(1, 4) { 3 } else { 0 }, &steps));
+    }
     // the final block delivered twice (known finding D11)
     for blen in [21usize, 40, 16] { let body = r.bytes(blen); let n = (blen + 15) / 16;
         let steps = upload_steps(1, &base, 7, &body, 0, &move |k| if k + 1 == n { 2 } else { 1 }, None, &rp);
@@ -505,6 +556,22 @@ pub fn gen100(tier: &str, r: &mut Rng, emit: &mut dyn FnMut(Vec<u64>)) {
             emit(write_case(m, 0, &steps[..n]));
         }
     }
+    // replies whose unfragmented message lands exactly on / around the budget (the client names no block size, or one
+    // that is larger than the body): the decision to fragment is made on the complete message, marker included
+    for _ in 0..(if thorough { 4_000 } else { 600 }) {
+        let mut first = ReqSpec::get(&["edge"]);
+        first.token = r.bytes_below(9);
+        let ropts = rand_reply_opts(r);
+        let resp_oh = min_budget(&ropts, first.token.len()) - 28;
+        let m = (resp_oh + 28 + r.below(300)).min(1280);
+        let d = r.pick(&[-14i64, -13, -12, -11, -2, -1, 0, 1, 2]);
+        let blen = (m as i64 - resp_oh as i64 - 1 + d).max(0) as usize;
+        let rp = Reply { code: r.pick(&[0x45u64, 0x45, 0x44]), opts: ropts, body: r.bytes(blen) };
+        first.b2 = if r.chance(2, 3) { None } else { Some(bv(0, false, 6)) };
+        let steps = play_block2(m, &first, 7, &rp, None, 1);
+        let n = steps.len().min(3);
+        emit(write_case(m, 0, &steps[..n]));
+    }
     // only (final) block uploads at the client's largest sizes, incl. the reserved exponent 7, at small and large budgets
     for _ in 0..(if thorough { 6_000 } else { 400 }) {
         let mut base = ReqSpec::get(&["f"]);
@@ -527,6 +594,12 @@ pub fn gen100(tier: &str, r: &mut Rng, emit: &mut dyn FnMut(Vec<u64>)) {
         steps.push(Step::End(1));
         emit(write_case(128, 0, &steps));
     } }
+    // requests assembled by hand, without a source endpoint: the client's Block2 size binds all the same
+    for m in [64u64, 128, 300, 1152] { for szx in 0..5u8 { for tkl in [0usize, 4] {
+        let mut q = ReqSpec::get(&["nosrc"]); q.b2 = Some(bv(0, false, szx)); q.token = r.bytes(tkl);
+        let rp = Reply { code: 0x45, opts: vec![], body: r.bytes(3000) };
+        emit(write_case(m, 2, &[Step::Ex(1, q.desc(), 77_777_777, rp)]));
+    } } }
     // a request that ends an upload AND names a Block2 size for the (large) reply: the reply's block must not exceed it
     for _ in 0..(if thorough { 6_000 } else { 400 }) {
         let mut base = ReqSpec::get(&["u"]);
@@ -552,6 +625,8 @@ pub fn gen110(tier: &str, r: &mut Rng, emit: &mut dyn FnMut(Vec<u64>)) {
     let keys: [(u64, u64, &[&str]); 4] = [(7, 3, &["a"]), (7, 1, &["a"]), (8, 3, &["a"]), (7, 2, &["a", "b"])];
     for _ in 0..(if thorough { 12_000 } else { 2_500 }) {
         let m = match r.below(5) { 0 => r.below(65), 1 => 1152, 2 => r.below(5001), 3 => r.pick(&[0u64, 12, 16, 17, 28, 29, 1280, 1281]), _ => 20 + r.below(60) };
+        // "unlimited" budgets: the largest value the configuration admits and its neighbourhood, and other huge ones
+        let m = if r.chance(1, 16) { r.pick(&[u64::MAX, u64::MAX - 1, u64::MAX - 12, u64::MAX - 1300, 1u64 << 63, (1u64 << 63) - 1, 1u64 << 32, u32::MAX as u64, (1u64 << 31) - 1]) } else { m };
         let n = 1 + r.below(6);
         let mut steps = Vec::new();
         for i in 0..n {
@@ -562,6 +637,9 @@ pub fn gen110(tier: &str, r: &mut Rng, emit: &mut dyn FnMut(Vec<u64>)) {
             // method, i.e. ONE further cache key per (endpoint, path)
             let tid = if r.chance(1, 8) { q.code = r.pick(&[0u64, 0, 0x45, 0x1F, 0xFF]); 100 + if tid == 1 { 0 } else { tid } } else { tid };
             if r.chance(1, 4) { let bloat = r.pick(&[10usize, 200, 1100, 1270, 1300, 1400]); q.extra.push((r.pick(&[15u16, 35, 2000]), vec![r.bytes(bloat)])); }
+            // size announcements (Size1 / Size2) of every shape: empty, zero, padded zero, small, huge, too long
+            if r.chance(1, 4) { let v = r.pick(&[&[][..], &[0][..], &[0, 0][..], &[0, 0, 0, 0][..], &[1][..], &[0x40, 0][..], &[0xFF, 0xFF, 0xFF, 0xFF][..], &[1, 2, 3, 4, 5][..]]).to_vec();
+                                q.extra.push((r.pick(&[60u16, 60, 28]), vec![v])); q.extra.sort_by_key(|e| e.0); }
             let num = r.pick(&[0u64, 1, 2, 100, 4095, 4096, 65535]);
             let blk = |r: &mut Rng| -> Vec<u8> { match r.below(6) { 0 => r.bytes_below(5), _ => bv(r.pick(&[0u64, 1, 2, 100, 4095, 4096, 65535]), r.chance(1, 2), r.below(8) as u8) } };
             let _ = num;
@@ -675,6 +753,68 @@ pub fn gen120(tier: &str, r: &mut Rng, emit: &mut dyn FnMut(Vec<u64>)) {
             let _ = vi;
         }
     }
+    // path segments longer than 255 bytes (the codec carries them): keys that only differ where a one-byte length
+    // would be clamped or wrap
+    {
+        let head: &'static str = Box::leak("x".repeat(255).into_boxed_str());
+        let tail: &'static str = Box::leak("y".repeat(44).into_boxed_str());
+        let joined: &'static str = Box::leak(format!("{},{}", head, tail).into_boxed_str());
+        let long300: &'static str = Box::leak("z".repeat(300).into_boxed_str());
+        let long300b: &'static str = Box::leak(format!("{}w", "z".repeat(299)).into_boxed_str());
+        let sets: Vec<Vec<(u64, u64, Vec<&str>)>> = vec![
+            vec![(7, 1, vec!["fw", joined]), (7, 1, vec!["fw", head, tail])],
+            vec![(7, 1, vec![long300]), (7, 1, vec![long300b])],
+            vec![(7, 1, vec![head, "a"]), (7, 1, vec![head]), (7, 1, vec![joined])],
+        ];
+        for keyset in sets.iter() {
+            let mut transfers: Vec<Vec<Step>> = Vec::new();
+            for (t, (src, code, path)) in keyset.iter().enumerate() {
+                let mut q = ReqSpec::get(&path[..]); q.code = *code; q.token = vec![t as u8 + 1]; q.mid = (100 * (t + 1)) as u16;
+                let rp = Reply { code: 0x45, opts: vec![(12, vec![vec![t as u8]])], body: r.bytes(16 * (3 + t % 2) + 3) };
+                q.b2 = Some(bv(0, false, 0));
+                let steps = play_block2(16 + 60, &q, *src, &rp, None, t as u64);
+                let n = steps.len().min(3);
+                transfers.push(steps[..n].to_vec());
+            }
+            let lens: Vec<usize> = transfers.iter().map(|t| t.len()).collect();
+            let mut all = Vec::new();
+            interleavings(&lens, &mut Vec::new(), &mut vec![0; lens.len()], &mut all, 200);
+            let stride = (all.len() / 12).max(1);
+            for (i, order) in all.iter().enumerate() {
+                if i % stride != 0 && i + 1 != all.len() { continue; }
+                let mut pos = vec![0usize; lens.len()];
+                let steps: Vec<Step> = order.iter().map(|&t| { let s = transfers[t][pos[t]].clone(); pos[t] += 1; s }).collect();
+                emit(write_case(16 + 60, 0, &steps));
+            }
+        }
+    }
+    // time (mode 4: the handler forgets after one second; naps of 100 ms): a transfer that pauses for longer than that
+    // loses its state whether or not ANOTHER transfer (other endpoint / method / path) uses the handler during the pause,
+    // and one that pauses for less keeps it either way
+    for (vi, (bsrc, bcode, bpath)) in [(8u64, 3u64, vec!["up"]), (7, 2, vec!["up"]), (7, 3, vec!["other"])].iter().enumerate() {
+        for long_pause in [true, false] { for download in [false, true] {
+            if !thorough && !long_pause && vi > 0 { continue; }
+            let mut a = ReqSpec::get(&["up"]); a.code = if download { 1 } else { 3 }; a.token = vec![1];
+            let ta: Vec<Step> = if download {
+                a.b2 = Some(bv(0, false, 0));
+                play_block2(16 + 60, &a, 7, &Reply { code: 0x45, opts: vec![], body: r.bytes(16 * 3 + 3) }, None, 0)
+            } else {
+                let body = r.bytes(16 * 2 + 5);
+                upload_steps(0, &a, 7, &body, 0, &|_| 1, None, &Reply { code: 0x44, opts: vec![], body: vec![1] })
+            };
+            if ta.len() < 3 { continue; }
+            let mut b = ReqSpec::get(&bpath[..]); b.code = *bcode; b.token = vec![2]; b.mid = 900;
+            let tb = upload_steps(1, &b, *bsrc, &r.bytes(16 * 2 + 1), 0, &|_| 1, None, &Reply { code: 0x44, opts: vec![], body: vec![2] });
+            let half = if long_pause { 6 } else { 3 };   // 1200 ms or 600 ms in all
+            let mut steps: Vec<Step> = ta[..2].to_vec();
+            for _ in 0..half { steps.push(Step::Nap); }
+            steps.push(tb[0].clone());
+            for _ in 0..half { steps.push(Step::Nap); }
+            steps.push(ta[2].clone());
+            steps.push(tb[1].clone());
+            emit(write_case(16 + 60, 4, &steps));
+        } }
+    }
 }
 
 // ------------------------------------------------------------------ suite 200
@@ -741,6 +881,33 @@ pub fn gen200(tier: &str, r: &mut Rng, emit: &mut dyn FnMut(Vec<u64>)) {
         }
         emit(write_case(1152, 1, &steps));
     } }
+    // a server that drops a request after intercept_request (its application never answers, intercept_response is never
+    // called for it): the key's state still expires on time
+    for kind in 0..4 {
+        let mut steps = Vec::new();
+        let mut q = ReqSpec::get(&["parked"]);
+        if kind < 2 {
+            let rp = Reply { code: 0x45, opts: vec![], body: r.bytes(100) };
+            q.b2 = Some(bv(0, false, 0)); steps.push(Step::Ex(1, q.desc(), 7, rp.clone()));
+            // a further request on the same key that goes to the application (no Block2 option), never answered
+            let mut g = q.clone(); g.b2 = None; g.mid = 5; g.token = vec![6];
+            steps.push(Step::Begin(2, g.desc(), 7, Reply { code: 0x45, opts: vec![], body: r.bytes(10) }));
+            steps.push(Step::Sleep);
+            if kind == 1 { let mut o = ReqSpec::get(&["bystander"]); o.mid = 3; steps.push(Step::Ex(3, o.desc(), 9, Reply { code: 0x45, opts: vec![], body: vec![1] })); steps.push(Step::Sleep); }
+            let mut f = q.clone(); f.b2 = Some(bv(1, false, 0)); f.mid = 9; steps.push(Step::Ex(1, f.desc(), 7, Reply { code: 0x45, opts: vec![], body: r.bytes(10) }));
+        } else {
+            q.code = 3; let body = r.bytes(16 * 2 + 7);
+            let up = upload_steps(1, &q, 7, &body, 0, &|_| 1, None, &Reply { code: 0x44, ..Default::default() });
+            steps.extend(up[..2].iter().cloned());
+            // a single-message request on the same key (no Block1 option): goes to the application, never answered
+            let mut g = q.clone(); g.mid = 5; g.token = vec![6]; g.payload = vec![1, 2, 3];
+            steps.push(Step::Begin(2, g.desc(), 7, Reply { code: 0x44, ..Default::default() }));
+            steps.push(Step::Sleep);
+            if kind == 3 { let mut o = ReqSpec::get(&["bystander"]); o.mid = 3; steps.push(Step::Ex(3, o.desc(), 9, Reply { code: 0x45, opts: vec![], body: vec![1] })); steps.push(Step::Sleep); }
+            steps.push(up[2].clone());
+        }
+        emit(write_case(1152, 1, &steps));
+    }
     // expiry is per key: a transfer left idle for longer than the expiry duration expires although OTHER keys keep
     // using the handler at intervals shorter than the duration (expiry 300 ms, four naps of 100 ms)
     for kind in 0..(if thorough { 6 } else { 3 }) {
